@@ -111,3 +111,31 @@ def mutate_program(rng, src):
 
 def hexcp(s):
     return ",".join("%x" % ord(c) for c in s) if s else "-"
+
+
+# ---------------------------------------------------------------- forms in contexts
+# A systematic product: every construct (bare, in round brackets, in double brackets) placed at every operand
+# position of every other construct - the shapes in which a builder / parser rule that keys on "the node directly
+# below" (a conditional directly under a logical operator, a list directly under a list, a group standing in an
+# else-chain ...) can go wrong.  Rejected combinations are part of the corpus too.
+FORMS = ["5 ?> 6", "5 !> 6", "5 ?> 6 |> 7", "5 ?> 6 |> 0 ?> 7", "5 ?> 6 |> 0 !> 7 |> 8", "5 && 6", "5 || 6", "5 ^^ 6", "5 6", "5, 6",
+         "5 = 6", "{5}", "{5}~~", "{$ < 3 ?> ^~ $ + 1} ~ 0", "5 [6]", "5;6", "--5", "5._", "5 + 6", "a.b", "()", "5 .. 6",
+         "a <> b", "{$} ~ 6", "5 ~> {$}", "!!5", "5 == 6", ":s", "\"t\""]
+WRAPS = ["%s", "(%s)", "((%s))"]
+CONTEXTS = ["%s", "%s && 7", "7 && %s", "%s || 7", "7 || %s", "%s ^^ 7", "7 ^^ %s", "%s + 7", "7 + %s", "%s 7", "7 %s", "%s, 7", "7, %s",
+            "%s = 7", "7 = %s", "%s ?> 7", "7 ?> %s", "7 ?> 8 |> %s", "%s |> 7", "7 !> %s", "--%s", "!!%s", "??%s", "%s._", "%s~~", "(%s)",
+            "{%s}~~", "{%s} ~ 7", "7 ~> {%s}", "7 [%s]", "%s [7]", "%s;7", "7;%s", "%s\n\n7", "7\n\n%s", "%s.a", "%s ~ 7", "7 ~ %s",
+            "%s <> 7", "7 <> %s", "%s .. 7", "%s == 7", "7 == %s", "%s < 7"]
+
+
+def forms_in_contexts(rng, two_level_sample=None):
+    """one level: every form x wrap x context; two levels: context(context(wrap(form))), all of them or a sample"""
+    one = [c % (w % f) for f in FORMS for w in WRAPS for c in CONTEXTS]
+    two = []
+    if two_level_sample is None:
+        two = [c1 % (w2 % (c2 % (w % f))) for f in FORMS for w in WRAPS[:2] for c2 in CONTEXTS[1:] for w2 in WRAPS[:2] for c1 in CONTEXTS[1:]]
+    else:
+        for _ in range(two_level_sample):
+            f, w, c2, w2, c1 = rng.choice(FORMS), rng.choice(WRAPS), rng.choice(CONTEXTS[1:]), rng.choice(WRAPS[:2]), rng.choice(CONTEXTS[1:])
+            two.append(c1 % (w2 % (c2 % (w % f))))
+    return one + two
